@@ -8,7 +8,7 @@ import time
 
 sys.path.insert(0, os.path.dirname(os.path.abspath(__file__)))
 import vlib
-from engines import hs_server, hs_client, tcp_stream, codec, pending, srvlife, mux, chan, clientlife, blocking, transport
+from engines import hs_server, hs_client, tcp_stream, codec, pending, srvlife, mux, chan, clientlife, blocking, transport, listener
 
 # property -> list of (engine module, operator prefixes that decide it)
 PROPS = {
@@ -27,7 +27,7 @@ PROPS = {
     "C13": [(chan.C13, ["C13_"]), (transport, ["C13_Transport"]), (clientlife, ["C13_ClientReleases"])],
     "C12": [(tcp_stream.C12, ["C12_"])],
     "C17": [(chan.C17, ["C17_", "C13_NoCrash"])],
-    "C18": [(srvlife, ["C18_"])],
+    "C18": [(srvlife, ["C18_"]), (listener, ["C18_ListenerStops"])],
     "C19": [(clientlife, ["C19_"])],
     "C20": [(mux, ["C20_"])],
     "C16": [(tcp_stream.C16, ["C16_"])],
@@ -35,6 +35,11 @@ PROPS = {
 }
 
 ASSUME = {
+    "listener": [
+        "TLC enumerates every sequence of up to 4 (thorough: 6; in-process 5) operations listen / dial / accept / close on one listener of each kind; each is executed on a real listener and compared step by step (in-process cases one after the other: the library's listener registry is a plain map)",
+        "a Close that has not returned after 0.7 s (in-process 0.12 s) is recorded as hanging; 8 ms for the loopback network to settle, 80 ms accept deadlines",
+        "TLC, CommunityModules Json, the Go runtime, net/http and gorilla/websocket are trusted",
+    ],
     "transport": [
         "TLC enumerates every sequence of up to 4 (thorough: 5) operations send / receive / close / connected on either end of a pair, for the in-process transport with capacities 0, 1, 2 and for TCP and WebSocket (quick tier: a seeded sample of 1200 socket sequences each), and checks the contract operators on the model",
         "operations are executed one at a time with 10 ms for the loopback network to settle and 70 ms deadlines; sequences that close a socket end with unread input are not generated (open finding F-C13-7)",
